@@ -19,10 +19,10 @@ RULE = ('tie cases = every (mechanism in relocate/relocate-exec/relocate-create/
 MECH_N_QUICK, MECH_N_THOROUGH = 6, 12
 SCENARIOS = [  # name, element kinds
     ('arr', 'nc'), ('arri', 'n'), ('arrr', 'n'), ('seg', 'nc'), ('hset', 'nc'), ('hseto', 'nc'), ('hset1', 'nc'),
-    ('hmap', 'nc'), ('hmm', 'nc'), ('tset', 'nc'), ('tsetf', 'nc'), ('tmap', 'nc'), ('tsmall', 'n'), ('pool', 'n'), ('pool1', 'n'),
+    ('hmap', 'nc'), ('hmm', 'nc'), ('tset', 'nc'), ('tsetf', 'nc'), ('tmap', 'nc'), ('tsmall', 'n'), ('pool', 'n'), ('pool1', 'n'), ('pool2', 'n'), ('pool4', 'n'),
     ('dt', 'n'), ('svec', 'nc'), ('suset', 'n'), ('sset', 'n'), ('sumap', 'n'), ('summap', 'n'), ('smap', 'n'), ('smmap', 'n')]
 PART = {'arr': 1, 'arri': 1, 'arrr': 1, 'seg': 1, 'hset': 1, 'hseto': 1, 'hset1': 1,
-        'hmap': 2, 'hmm': 2, 'tset': 2, 'tsetf': 2, 'tmap': 2, 'tsmall': 2, 'pool': 2, 'pool1': 2}
+        'hmap': 2, 'hmm': 2, 'tset': 2, 'tsetf': 2, 'tmap': 2, 'tsmall': 2, 'pool': 2, 'pool1': 2, 'pool2': 2, 'pool4': 2}
 
 
 # stdish wrappers use the default HashSetSettings / TreeSetSettings with momo's debug self check (pvExtraCheck calls the functors again and asserts
